@@ -207,12 +207,14 @@ class AceGroup(AceBase, Group):
 
         :param platform: Platform: "asa", "ios", "nxos". Default "ios".
         """
-        self._platform = h.init_platform(platform=platform)
+        platform = h.init_platform(platform=platform)
+        items = list(self._items)
+        if platform == "nxos":
+            self.ungroup_ports()
+        self._platform = platform
 
-        for item in self._items:
+        for item in items:
             item.type = self._type
-            if self._platform == "nxos":
-                self.ungroup_ports()
             item.platform = self._platform
 
         data = self.data(uuid=True)
